@@ -333,6 +333,10 @@ def rule_helpers(rep: Report, repo: Repo, sections=None, nonhermitian: bool = Tr
                 lab = norm(cmp_.left) if isinstance(cmp_, ast.Compare) else ""
                 rng = norm(g_.iter)
                 # labels / n_components come from one connected_components(graph, directed=False) call (resolved by position)
+                if isinstance(cmp_, ast.Compare) and len(cmp_.ops) == 1 and norm(cmp_.left) == norm(g_.target):
+                    # `label == labels`: the same selection with the operands the other way round
+                    cmp_ = ast.Compare(left=cmp_.comparators[0], ops=cmp_.ops, comparators=[cmp_.left])
+                    lab = norm(cmp_.left)
                 good = isinstance(cmp_, ast.Compare) and isinstance(cmp_.ops[0], ast.Eq) and norm(cmp_.comparators[0]) == norm(g_.target) \
                     and lab.startswith(cc_call) and lab.endswith(", directed=False)[1]") and rng == "range(" + lab[:-3] + "[0])"
                 graph = lab[len(cc_call):-len(", directed=False)[1]")]
